@@ -6,13 +6,58 @@ META = dict(
           '5 integer types and boundary values; successor must be null or inside the own region (a second instance is live) or the step aborted. Plus every one '
           'of the 2^16 guest representations in 9 pointer-carrying positions (invoke result, callback argument, memory cell, array element, array-of-pointers, '
           'struct field by pointer / by value / by-value result / copy_and_verify), malloc environment answers, app pointers; 32-bit instance on boundary states; an instance with a pointer-wide 64-bit base-relative representation over a 64 KiB region on all states and on boundary representations including ones that look like host addresses. '
-          'states = states whose transitions were all executed; transitions = executed steps (each validated against the implementation).'),
+          'plus compile probes that a tainted_volatile cannot be copied, moved or default-constructed (it must stay at its address in sandbox memory). states = states whose transitions were all executed; transitions = executed steps (each validated against the implementation).'),
     assumptions=['"inside" is decided by the mbox region; every state satisfying the invariant is explored, which over-approximates the reachable set',
                  'function pointers are excluded by the statement'],
 )
 
 
+# A tainted_volatile is the object AT an address in sandbox memory: its own address is the example for context-free pointer
+# translation and the result of operator&. If it could be copied or moved, the copy would live in application memory and
+# every pointer obtained from it (conversion to tainted, &v, arithmetic) would be outside the sandbox. Must not compile.
+VOLATILE_PROBES = [
+    ('copy-init from *pp', 'auto v = *pp; (void)v;'),
+    ('copy-init from p->field', 'auto v = ps->p; (void)v;'),
+    ('copy-init of an int cell', 'auto v = *pi; (void)v;'),
+    ('move-init', 'auto v = std::move(*pp); (void)v;'),
+    ('by-value parameter', 'auto f = [](tv<int*> v) { (void)v; }; f(*pp);'),
+    ('is_copy_constructible<tainted_volatile<int*>>', 'static_assert(!std::is_copy_constructible_v<tv<int*>>, "VERIF_COPYABLE");'),
+    ('is_move_constructible<tainted_volatile<int*>>', 'static_assert(!std::is_move_constructible_v<tv<int*>>, "VERIF_COPYABLE");'),
+    ('is_copy_constructible<tainted_volatile<int>>', 'static_assert(!std::is_copy_constructible_v<tv<int>>, "VERIF_COPYABLE");'),
+    ('is_default_constructible<tainted_volatile<int*>>', 'static_assert(!std::is_default_constructible_v<tv<int*>>, "VERIF_COPYABLE");'),
+    ('is_copy_constructible<tainted_volatile<struct>>', 'static_assert(!std::is_copy_constructible_v<tv<VS>>, "VERIF_COPYABLE");'),
+    ('is_copy_constructible<tainted_volatile<int*[3]>>', 'static_assert(!std::is_copy_constructible_v<tv<int* [3]>>, "VERIF_COPYABLE");'),
+]
+VOLATILE_PRE = 'void probe(tn<int**>& pp, tn<VS*>& ps, tn<int*>& pi)\n{\n  %s\n}\n'
+
+
+def volatile_probes(ctx):
+    from gengine import G
+    import json
+    g = G(ctx, 'g03')
+    jobs = [((n,), VOLATILE_PRE % code) for n, code in VOLATILE_PROBES]
+    # positive control: the same statements by reference compile
+    jobs.append((('control: reference to *pp',), VOLATILE_PRE % 'auto& v = *pp; tn<int*> t = v; (void)t;'))
+    res = g.probe_many(jobs)
+    r = ctx.result
+    for (n,), (acc, diag, path) in res.items():
+        if n.startswith('control'):
+            if not acc:
+                r.viols.append(dict(sig='C03 step=volatile-probe-control kind=rejected', case=json.dumps(dict(name=n)), detail='positive control no longer compiles: ' + diag[:200], noreplay=True))
+        elif n.startswith('is_'):
+            # trait probes are static_asserts of the negation: they must COMPILE
+            if not acc:
+                r.viols.append(dict(sig='C03 step=tainted_volatile-leaves-sandbox-memory kind=constructible', case=json.dumps(dict(name=n)),
+                                    detail='%s holds: a tainted_volatile object can be created outside sandbox memory (%s)' % (n, diag[:120]), noreplay=True))
+        elif acc:
+            r.viols.append(dict(sig='C03 step=tainted_volatile-leaves-sandbox-memory kind=compiles', case=json.dumps(dict(name=n)),
+                                detail='%s compiles: a tainted_volatile object can exist outside sandbox memory, so pointers derived from it are not confined' % n, noreplay=True))
+    r.stat['programs'] = len(jobs)
+    ctx.extra_cov['programs'] = len(jobs)
+
+
 def run(ctx):
+    volatile_probes(ctx)
     specs = [('c03_mask16', 'c03.cpp', dict(opt='-O1')),
              ('c03_reg16', 'c03.cpp', dict(opt='-O1', defs=['C03_MODE=REGISTRY', 'C03_TYPES=char, long, VS'])),
              ('c03_mask32', 'c03.cpp', dict(opt='-O1', defs=['C03_PTR=uint32_t', 'C03_TYPES=char, long, int*, VS'])),
